@@ -111,6 +111,8 @@ class Renderer:
             return "(" + ", ".join(self.expr(x) for x in e["es"]) + ")"
         if k == "array":
             return "[" + ", ".join(self.expr(x) for x in e["es"]) + "]"
+        if k == "arep":
+            return "[%s; %d]" % (self.expr(e["e"]), e["n"])
         if k == "struct":
             fs = self.p["structs"][e["name"]]
             return "%s { %s }" % (e["name"], ", ".join("%s: %s" % (f["n"], self.expr(x)) for f, x in zip(fs, e["es"])))
@@ -800,6 +802,113 @@ class Gen:
         calls = [(49, 10), (50, 10), (81, 5), (r.randint(0, 40), r.randint(0, 8)), (r.choice([1, 4, 9, 16, 25]), r.randint(3, 7))]
         ss2 = [{"k": "log", "e": {"k": "call", "f": fname, "args": [lit("u64", n), lit("u64", mx)]}} for (n, mx) in calls]
         out.append({"name": "case_search", "body": block(ss2)})
+
+        # (3) immediate-operand boundaries of the FuelVM instruction formats (12, 18 and 24 bits) around a run-time value
+        x = "px%d" % seed
+        xv = r.choice([0, 1, 4095, 4096, 262143, 262144, r.randint(0, 1 << 20), r.randint(0, 1 << 20)])
+        hi = bin_("or", v(x), lit("u64", 1 << 40))
+        K = [4095, 4096, 262143, 262144, 16777215, 16777216]
+
+        def tup(es):
+            return {"k": "log", "e": {"k": "tuple", "es": es}}
+        ss3 = [{"k": "let", "x": x, "mut": False, "ty": T("u64"), "e": {"k": "call", "f": "id_u64", "args": [lit("u64", xv)]}},
+               tup([bin_("add", v(x), lit("u64", k)) for k in K]),
+               tup([bin_("sub", hi, lit("u64", k)) for k in K]),
+               tup([bin_("mul", v(x), lit("u64", k)) for k in K]),
+               tup([bin_("and", v(x), lit("u64", 4095)), bin_("and", v(x), lit("u64", 4096)), bin_("or", v(x), lit("u64", 262143)),
+                    bin_("xor", v(x), lit("u64", 262144)), bin_("and", hi, lit("u64", 16777215)), bin_("mod", v(x), lit("u64", 4096))]),
+               tup([bin_("eq", v(x), lit("u64", 4095)), bin_("lt", v(x), lit("u64", 4096)), bin_("gt", v(x), lit("u64", 262143)),
+                    bin_("ge", v(x), lit("u64", 262144)), bin_("ne", v(x), lit("u64", 16777215)), bin_("le", v(x), lit("u64", 16777216))]),
+               tup([bin_("shl", v(x), lit("u64", 12)), bin_("shr", hi, lit("u64", 12)), bin_("shl", v(x), lit("u64", 18)),
+                    bin_("shr", hi, lit("u64", 18)), bin_("div", hi, lit("u64", 4095)), bin_("div", hi, lit("u64", 4096))])]
+        out.append({"name": "case_imm", "body": block(ss3)})
+
+        # (4) a stack frame larger than the 12-bit word offset of load/store instructions: locals on both sides of the
+        # boundary, constant and run-time indices
+        na = r.choice([2040, 2050, 4090])
+        nb = 4100 - na + r.randint(0, 8)
+        aa, bb, cc, kk, zz = ("p%s%d" % (c, seed) for c in "fghkz")
+        arr = lambda n: {"t": "array", "e": T("u64"), "n": n}
+        ixp = lambda e: [{"k": "ix", "e": e}]
+        ss4 = [{"k": "let", "x": aa, "mut": True, "ty": arr(na), "e": {"k": "arep", "e": {"k": "call", "f": "id_u64", "args": [lit("u64", 1)]}, "n": na}},
+               {"k": "let", "x": bb, "mut": True, "ty": arr(nb), "e": {"k": "arep", "e": lit("u64", 7), "n": nb}},
+               {"k": "let", "x": cc, "mut": True, "ty": arr(6), "e": {"k": "array", "es": [lit("u64", 20 + j) for j in range(6)]}},
+               {"k": "let", "x": kk, "mut": False, "ty": T("u64"), "e": {"k": "call", "f": "id_u64", "args": [lit("u64", na - 1)]}},
+               {"k": "let", "x": zz, "mut": True, "ty": T("u64"), "e": {"k": "call", "f": "id_u64", "args": [lit("u64", 5)]}},
+               {"k": "assign", "x": aa, "path": ixp(lit("u64", 0)), "e": lit("u64", 11)},
+               {"k": "assign", "x": aa, "path": ixp(v(kk)), "e": lit("u64", 12)},
+               {"k": "assign", "x": bb, "path": ixp(lit("u64", 0)), "e": v(zz)},
+               {"k": "assign", "x": bb, "path": ixp(lit("u64", nb - 1)), "e": lit("u64", 14)},
+               {"k": "assign", "x": cc, "path": ixp(bin_("mod", v(kk), lit("u64", 6))), "e": lit("u64", 15)},
+               {"k": "assign", "x": zz, "path": [], "e": bin_("add", v(zz), {"k": "index", "e": v(cc), "i": lit("u64", 5)})},
+               tup([{"k": "index", "e": v(aa), "i": lit("u64", 0)}, {"k": "index", "e": v(aa), "i": v(kk)},
+                    {"k": "index", "e": v(aa), "i": lit("u64", 1)}, {"k": "index", "e": v(aa), "i": lit("u64", na - 2)}]),
+               tup([{"k": "index", "e": v(bb), "i": lit("u64", 0)}, {"k": "index", "e": v(bb), "i": lit("u64", nb - 1)},
+                    {"k": "index", "e": v(bb), "i": lit("u64", 1)}, v(zz)]),
+               {"k": "log", "e": v(cc)}]
+        out.append({"name": "case_frame", "body": block(ss4)})
+
+        # (5) a call with more arguments than argument registers, of mixed sizes, combined non-commutatively; called
+        # with the same values in two different orders
+        gname = "many_%d" % seed
+        ptys = [T("u64"), T("u8"), T("u256"), T("u64"), {"t": "tuple", "es": [T("u64"), T("bool")]}, T("u32"), T("u64"), T("u64"), T("u16")]
+        nargs = r.randint(7, 9)
+        ptys = ptys[:nargs]
+        ps = [{"n": "q%d" % j, "ty": ptys[j]} for j in range(nargs)]
+
+        def as64(j):
+            t_ = ptys[j]["t"]
+            if t_ == "u64":
+                return v("q%d" % j)
+            if t_ in ("u8", "u16", "u32"):
+                return {"k": "cast", "t": "u64", "e": v("q%d" % j)}
+            if t_ == "tuple":
+                return {"k": "if", "c": {"k": "field", "e": v("q%d" % j), "i": 2}, "t": block([], {"k": "field", "e": v("q%d" % j), "i": 1}), "f": block([], lit("u64", 3))}
+            return {"k": "if", "c": bin_("gt", v("q%d" % j), lit("u256", 1 << 70)), "t": block([], lit("u64", 77)), "f": block([], lit("u64", 33))}
+        acc = lit("u64", 1)
+        for j in range(nargs):
+            acc = bin_("add", bin_("mul", bin_("and", acc, lit("u64", (1 << 40) - 1)), lit("u64", 31)), bin_("and", as64(j), lit("u64", (1 << 20) - 1)))
+        self.prog["fns"][gname] = {"params": ps, "ret": {"t": "tuple", "es": [T("u64"), T("u256")]}, "noinline": r.random() < 0.7,
+                                   "body": block([], {"k": "tuple", "es": [acc, v("q2")]})}
+
+        def argval(j, salt):
+            t_ = ptys[j]["t"]
+            if t_ == "tuple":
+                return {"k": "tuple", "es": [lit("u64", 100 + salt), boolean(salt % 2 == 0)]}
+            if t_ == "u256":
+                return lit("u256", (1 << 200) + salt if salt % 3 else salt)
+            mm = (1 << (8 * WIDTH[t_])) - 1
+            return lit(t_, (salt * 37 + 5) % (mm + 1))
+        u64pos = [j for j in range(nargs) if ptys[j]["t"] == "u64"]
+        c1 = [argval(j, j + 1) for j in range(nargs)]
+        c2 = list(c1)
+        c2[u64pos[0]], c2[u64pos[-1]] = c1[u64pos[-1]], c1[u64pos[0]]
+        c3 = [argval(j, r.randint(0, 50)) for j in range(nargs)]
+        c3[u64pos[1]] = {"k": "call", "f": "id_u64", "args": [lit("u64", r.randint(0, 1 << 30))]}
+        ss5 = [{"k": "log", "e": {"k": "call", "f": gname, "args": c}} for c in (c1, c2, c3)]
+        out.append({"name": "case_args", "body": block(ss5)})
+
+        # (6) partial updates of an aggregate on different paths of branches and of a loop, then read as a whole
+        st, cnd, it = "pt%d" % seed, "pd%d" % seed, "pj%d" % seed
+        tty = {"t": "tuple", "es": [T("u64"), {"t": "tuple", "es": [T("u8"), T("u64")]}, {"t": "array", "e": T("u64"), "n": 3}]}
+        fld = lambda *ix: [{"k": "f", "i": i_} for i_ in ix]
+        cval = r.randint(0, 9)
+        ss6 = [{"k": "let", "x": st, "mut": True, "ty": tty, "e": {"k": "tuple", "es": [lit("u64", 1), {"k": "tuple", "es": [lit("u8", 2), lit("u64", 3)]},
+                                                                                       {"k": "array", "es": [lit("u64", 4), lit("u64", 5), lit("u64", 6)]}]}},
+               {"k": "let", "x": cnd, "mut": False, "ty": T("u64"), "e": {"k": "call", "f": "id_u64", "args": [lit("u64", cval)]}},
+               {"k": "let", "x": it, "mut": True, "ty": T("u64"), "e": lit("u64", 0)},
+               {"k": "expr", "e": {"k": "if", "c": bin_("lt", v(cnd), lit("u64", 5)),
+                                   "t": block([{"k": "assign", "x": st, "path": fld(1), "e": bin_("add", v(cnd), lit("u64", 40))}]),
+                                   "f": block([{"k": "assign", "x": st, "path": fld(2, 2), "e": bin_("add", v(cnd), lit("u64", 50))}])}},
+               {"k": "while", "c": bin_("lt", v(it), lit("u64", 3)), "b": block([
+                   {"k": "expr", "e": {"k": "if", "c": bin_("eq", bin_("mod", bin_("add", v(it), v(cnd)), lit("u64", 2)), lit("u64", 0)),
+                                       "t": block([{"k": "assign", "x": st, "path": fld(3) + [{"k": "ix", "e": v(it)}],
+                                                    "e": bin_("add", {"k": "field", "e": v(st), "i": 1}, v(it))}]),
+                                       "f": block([{"k": "assign", "x": st, "path": fld(1),
+                                                    "e": bin_("add", {"k": "index", "e": {"k": "field", "e": v(st), "i": 3}, "i": v(it)}, lit("u64", 100))}])}},
+                   {"k": "assign", "x": it, "path": [], "e": bin_("add", v(it), lit("u64", 1))}])},
+               {"k": "log", "e": v(st)}]
+        out.append({"name": "case_paths", "body": block(ss6)})
         return out
 
     def main_fn(self):
